@@ -19,12 +19,12 @@ func propC06(c *Ctx) {
 	c.Assume(e1, "assumption/fresh-header-region-is-zero", "pkg/buffer/prependable.go", "a region returned by Prependable.Prepend has not been written before: NewPrependable allocates with make (zeroed) and usedIdx only decreases (C16/V5), so the checksum bytes are 0 when the sum is taken")
 	off := "(((*stack.Route).Capabilities($0) & 1) == 0)"
 	if fn := c.Fn(e1, "(*ipv4.endpoint).WritePacket"); fn != nil {
-		fits := "!(65535 < ((20 + buffer.Prependable.UsedLength($2)) + buffer.VectorisedView.Size($3)))"
+		fits := "(((20 + buffer.Prependable.UsedLength($2)) + buffer.VectorisedView.Size($3)) < 65536)"
 		ip := "(*buffer.Prependable).Prepend(&new(buffer.Prependable), 20)"
 		tl := "(buffer.Prependable.UsedLength(new(buffer.Prependable)@2) + buffer.VectorisedView.Size($3))"
-		big := "(68 < " + tl + ")"
+		big := "!(" + tl + " < 69)"
 		c.CheckSites(e1, fn, []SiteSpec{
-			{Kind: "return", Args: []string{"tcpip.ErrMessageTooLong"}, Guards: []string{"(65535 < ((20 + buffer.Prependable.UsedLength($2)) + buffer.VectorisedView.Size($3)))"}, Exact: true, N: 1, Why: "E2: a datagram whose total length does not fit 16 bits is refused (fixed D5)"},
+			{Kind: "return", Args: []string{"tcpip.ErrMessageTooLong"}, Guards: []string{"!" + fits}, Exact: true, N: 1, Why: "E2: a datagram whose total length does not fit 16 bits is refused (fixed D5)"},
 			{Kind: "call", Target: "(*buffer.Prependable).Prepend", Args: []string{"&new(buffer.Prependable)", "20"}, Guards: []string{fits}, Exact: true, N: 1, Why: "20-byte header, no options"},
 			{Kind: "store", Target: "header.IPv4Fields.IHL", Args: []string{"new(header.IPv4Fields)", "20"}, Guards: []string{fits}, Exact: true, N: 1, Why: "IHL = the prepended size"},
 			{Kind: "store", Target: "header.IPv4Fields.TotalLength", Args: []string{"new(header.IPv4Fields)", tl}, Guards: []string{fits}, Exact: true, N: 1, Why: "E2: total length = used header bytes AFTER the prepend (@2) + payload size"},
